@@ -382,3 +382,23 @@ def shape_of(canon: Any, limit: int = 6) -> str:
 
 	walk(canon)
 	return '+'.join(heads) or 'atom'
+
+
+def rebind_walrus(c: Any) -> Any:
+	"""Rewrite every ifexp(walrus(t, v), test, orelse) into walrus(t, ifexp(v, test, orelse)) (bottom-up): the reading CPython gives
+	`t := v if test else orelse`. Used only to RECOGNISE the known grouping difference, never to excuse any other one."""
+	if isinstance(c, tuple):
+		c2 = tuple(rebind_walrus(x) for x in c)
+		if len(c2) == 4 and c2[0] == 'ifexp' and isinstance(c2[1], tuple) and len(c2[1]) == 3 and c2[1][0] == 'walrus':
+			return ('walrus', c2[1][1], ('ifexp', c2[1][2], c2[2], c2[3]))
+		return c2
+	if isinstance(c, list):
+		return [rebind_walrus(x) for x in c]
+	return c
+
+
+def mismatch_key(got: Any, want: Any) -> str:
+	"""Key of a tree mismatch: the specific known class when the two trees differ exactly by walrus-over-ternary grouping, else by shape."""
+	if got != want and rebind_walrus(got) == want:
+		return 'group:walrus-over-ternary'
+	return f'tree-mismatch:{shape_of(want)}'
